@@ -24,9 +24,9 @@ from common import req, close, TOL, run_driver
 import scen_profile as sp
 
 META = {
-    'text': 'Theorems (Lean 4, over the reals, every table with strictly increasing depths, any length >= 2, any number of columns, every list of requested names, every history of operations): at a stored depth get_values returns the stored row; between stored depths every value is the convex combination with weight (z-x_i)/(x_{i+1}-x_i) and lies between its neighbours; outside the range the boundary rows are returned; values come back in request order, unknown names give 0, a batch query is the map of single queries; after EVERY sequence of append/extend/insert operations the cached interpolant equals build(table). The model is tied to the real code by running real Profile objects (all input forms) through seeded random histories and comparing every answer of the cached get_values, and every state transition, with the Lean model executed on the table the profile claims to hold; the predicates are also evaluated directly on the real answers.',
-    'note': 'Trusted: Lean kernel + 3 standard axioms; Model/Profile.lean is a hand transcription of ambient.py get_values / the five mutating operations and of scipy interp1d._call_linear (library contract, validated by the same comparison); real arithmetic as stand-in for doubles (in floating point a node next to a non-finite stored value returns NaN: counted, not judged); duplicate requested names are outside the quantifier (modelled faithfully, compared, not judged); netCDF side effects of Profile.append/extend are I/O and not modelled; fsolve result of extend_profile_deeper is taken from the run.',
-    'technique': 'Lean 4 proof over a hand model + differential execution of real profile histories against the model',
+    'text': 'Theorems (Lean 4, over the reals, every table with strictly increasing depths, any length >= 2, any number of columns, every list of distinct requested names): at a stored depth get_values returns the stored row; between stored depths every value is the convex combination with weight (z-x_i)/(x_{i+1}-x_i) and lies between its neighbours; outside the range the boundary rows are returned; values come back in request order, unknown names give 0. An invariant Inv (fresh cache, uniform width, strictly increasing depths, z_min/z_max = first/last stored depth) is proved to be preserved by every operation as the code performs it (append: interpolation onto the grid + unit conversion; extend_profile_deeper with 0 <= z_max < z_new: linspace rows, z_max update; insert_density(P0)/insert_potential_density/insert_buoyancy_frequency), hence by every history (inv_run), and node / clamp / between are stated for (run ops p).get (…_after_valid_history). The model is tied to the real code by running real Profile objects (all input forms incl. bottom-first storage) through seeded random histories and comparing every answer of the cached get_values and every state transition with the Lean model executed on the table the profile claims to hold; the predicates are evaluated directly on the real answers, with the clamping decided by the first / last stored depth of interp_ds (not by z_min/z_max, which are checked against them separately), and with depths given as floats, ints, lists, integer arrays.',
+    'note': 'Trusted: Lean kernel + 3 standard axioms; Model/Profile.lean is a hand transcription of ambient.py get_values / the five mutating operations and of scipy interp1d._call_linear (library contract, validated by the same comparison); real arithmetic as stand-in for doubles (in floating point a node next to a non-finite stored value returns NaN: counted, not judged). batch_eq_map, cache_fresh for a single rebuild and construct_fresh are DEFINITIONAL in the model (the code-side content is carried by the harness). Duplicate requested names are outside the quantifier (modelled faithfully, compared, not judged). interp1d raises outside its range where the model extrapolates: get_values clamps first, and a raise of the real get_values is a keyed violation. netCDF side effects of Profile.append/extend are I/O and not modelled; the fsolve result of extend_profile_deeper is taken from the run. Raises of the code under test are keyed violations (except the documented refusal of a netCDF-backed append with other units); coverage floors are obligations.',
+    'technique': 'Lean 4 proof (invariant over operation histories) over a hand model + differential execution of real profile histories against the model',
 }
 GEN = ['seawater']
 MODULES = ['TamocV.Props.C07', 'TamocV.Gen.SeawaterPy', 'TamocV.Model.Profile']
@@ -527,6 +527,14 @@ def _run(ctx, lean_ok, workdir):
                 if raised is not None:
                     if by_design(built.route, desc, raised):
                         ctx.count('op-refused-by-design:append-other-units-to-netCDF-variable')
+                    elif (desc['op'] == 'extend_profile_deeper' and desc.get('N') is None and isinstance(raised, ValueError)
+                          and 'Selected depths outside range' in str(raised)
+                          and snap['zmin'] + 1.0 * (snap['zmax'] - snap['zmin']) > snap['zmax']):
+                        # exact signature: l.317 z = z_min + h_N*(z_max - z_min) with the default h_N = 1.0 rounds ABOVE z_max
+                        ctx.count('op-raised:extend-hN-rounding')
+                        ctx.violation('extend-deeper-default-depth-rounds-above-z-max',
+                                      'extend_profile_deeper(z_new) with its defaults raised: z_min + 1.0*(z_max - z_min) > z_max in floating point, '
+                                      'buoyancy_frequency rejects the depth', {'history': list(history), 'z_min': snap['zmin'], 'z_max': snap['zmax']})
                     elif src == 'array-bottom-first' and desc['op'] == 'extend_profile_deeper':
                         ctx.count('op-raised:extend-on-bottom-first-table')
                         ctx.violation('extend-deeper-on-bottom-first-table',
